@@ -244,29 +244,53 @@ def program_level(rng, n_programs):
                                                 f"result is {fval} of type Integer"})
         if not found:
             problems.append({"expr": "literal-only sub-expression inside a function body", "why": "no LiteralReference in the function's table"})
-        for (i, _), mo in zip(outs, mir["outputs"]):
-            desc, lit, val, cls = items[i]
-            nlits += 1
-            op = mir["operations"][mo["operation_id"]]
-            name, body = next(iter(op.items()))
-            want_op = "BooleanXor" if cls == "Boolean" else "Addition"
-            if name != want_op:
-                problems.append({"expr": desc, "why": f"an operation with a non-literal operand was emitted as {name}, expected {want_op} (never folded)"})
-                continue
-            ref = mir["operations"][body["right"]]
-            rname, rbody = next(iter(ref.items()))
-            if rname != "LiteralReference":
-                problems.append({"expr": desc, "why": f"the literal-only sub-expression was emitted as {rname}, not as one literal"})
-                continue
-            entries = lits.get(rbody["refers_to"], [])
-            if len(entries) != 1:
-                problems.append({"expr": desc, "why": f"literal reference {rbody['refers_to']} resolves to {len(entries)} entries"})
-                continue
-            e = entries[0]
-            if e["value"] != str(val) or e["type"] != cls or rbody["type"] != cls:
-                problems.append({"expr": desc, "family": [str(x) for x in fam],
-                                 "why": f"in the compiled program the folded literal resolves to value {e['value']} of type {e['type']}; "
-                                        f"the exact result is {val} of type {cls}"})
+        def check(mir, outs, items, fam, tag=""):
+            n = 0
+            lits = {}
+            for l in mir["literals"]:
+                lits.setdefault(l["name"], []).append(l)
+            for (i, _), mo in zip(outs, mir["outputs"]):
+                desc, lit, val, cls = items[i]
+                desc = tag + desc
+                n += 1
+                op = mir["operations"][mo["operation_id"]]
+                name, body = next(iter(op.items()))
+                want_op = "BooleanXor" if cls == "Boolean" else "Addition"
+                if name != want_op:
+                    problems.append({"expr": desc, "why": f"an operation with a non-literal operand was emitted as {name}, expected {want_op} (never folded)"})
+                    continue
+                ref = mir["operations"][body["right"]]
+                rname, rbody = next(iter(ref.items()))
+                if rname != "LiteralReference":
+                    problems.append({"expr": desc, "why": f"the literal-only sub-expression was emitted as {rname}, not as one literal"})
+                    continue
+                entries = lits.get(rbody["refers_to"], [])
+                if len(entries) != 1:
+                    problems.append({"expr": desc, "why": f"literal reference {rbody['refers_to']} resolves to {len(entries)} entries"})
+                    continue
+                e = entries[0]
+                if e["value"] != str(val) or e["type"] != cls or rbody["type"] != cls:
+                    problems.append({"expr": desc, "family": [str(x) for x in fam],
+                                     "why": f"in the compiled program the folded literal resolves to value {e['value']} of type {e['type']}; "
+                                            f"the exact result is {val} of type {cls}"})
+            return n
+        nlits += check(mir, outs, items, fam)
+        # a second compilation in the same process: folded literals that survive the first one (traced before it) next to
+        # literals folded afterwards — each must still resolve to its own exact value
+        keep = [it for it in outs if items[it[0]][3] == "Integer"][:3]
+        items2 = [items[i] for i, _ in keep]
+        for j in range(rng.randint(1, 3)):
+            a2, b2 = R.big_int(rng) % 2**66, rng.choice([1, 2, 5, 7])
+            items2.append((f"Integer({a2}) * Integer({b2}) + Integer({j})", Integer(a2) * Integer(b2) + Integer(j), a2 * b2 + j, "Integer"))
+        order = list(range(len(items2)))
+        rng.shuffle(order)
+        outs2 = [(i, Output(host["Integer"] + items2[i][1], f"s{i}", p)) for i in order]
+        try:
+            mir2 = nada_dsl_to_nada_mir([o for _, o in outs2])
+        except Exception as exc:  # pylint: disable=broad-except
+            problems.append({"expr": "second compilation in the process", "why": f"{type(exc).__name__}: {exc}"[:200]})
+        else:
+            nlits += check(mir2, outs2, items2, fam, tag="(second compilation in one process) ")
     reset_globals()
     return problems, nlits
 
@@ -315,6 +339,26 @@ def run(res, tier):
             nontrivial.add((op, base, a, b))
     if diffs:
         res.broken.append({"decl": "K4 (Py/Int.lean vs CPython on foldExpr)", "msg": json.dumps(diffs[:3])[:600]})
+    # the table clause of the property on the real classes (Python twin of `C06.foldedIffLiteral`; it is also what turns
+    # a broken `table_folds_exactly_literals` into a replayable cell): folded <=> every operand is a literal
+    from ..extract import t1_scalar
+    ncells = 0
+    for op_, stys, results in t1_scalar.rows():
+        for prov, r in zip(t1_scalar.PROVENANCES, results):
+            if r is None or r[0] != "ok":
+                continue
+            ncells += 1
+            _, sty, folded, name, _ = r
+            if name == "alias":
+                continue
+            allconst = all(s[0] == "const" for s in stys)
+            if folded != allconst or (folded and not (name == "Literal" and sty[0] == "const")):
+                names = [t1_scalar.CLASSES[s].__name__ for s in stys]
+                res.violation({"property": "C06", "kind": "table-cell", "op": op_, "args": [list(s) for s in stys], "provenance": prov,
+                               "observed": list(map(str, r))},
+                              f"{op_}({', '.join(names)}) with operands built as '{prov}': "
+                              + ("folded to a literal although an operand is not a literal" if folded else "not folded although every operand is a literal")
+                              + f" (result {t1_scalar.CLASSES[sty].__name__}, recorded as {name})")
     problems, nlits = program_level(R.make("C06-programs"), 24 if tier == "quick" else 600)
     for pr in problems[:8]:
         res.violation({"property": "C06", "kind": "fold-in-program", **pr}, f"{pr['expr'][:120]}: {pr['why']}"[:400])
@@ -328,6 +372,7 @@ def run(res, tier):
         "model_gap_skipped": gaps,
         "k4_disagreements": len(diffs),
         "folded_literals_checked_inside_compiled_programs": nlits,
+        "table_cells_checked_folded_iff_literal": ncells,
         "samples": [{"op": c[0], "base": c[1], "a": enc(c[2]), "b": enc(c[3])} for c in cases[16:40:4]],
     })
     res.assumptions += [
@@ -338,6 +383,9 @@ def run(res, tier):
 
 
 def replay(obj):
+    if obj.get("kind") == "table-cell":
+        from . import c02
+        return c02.replay_fold_cell(obj)
     if obj.get("kind") == "fold-in-program":
         problems, _ = program_level(R.make("C06-programs"), 24)
         print(json.dumps(problems[:3], default=str)[:1500])
